@@ -43,6 +43,19 @@ CHECKS = {
         "constructed). One listed known finding (a grouped record whose own members collide).",
         "DESIGN.md 4/C03",
     ),
+    "C04": (
+        "fault_enumeration",
+        "fault injection + exhaustive cut enumeration per generated stream, oracle = frame table from the reference "
+        "codec (independent zlib inflate for gzip)",
+        "For each generated stream (raw and gzip) every byte offset at which the file can end is cut and read through "
+        "RecordStreamReader and RecordReader (file object and path); every write-call index with 0/1/half/len-1 "
+        "kept bytes is failed (fail-stop) under RecordStreamWriter, the StreamWriter adapter and a gzip writer. The "
+        "reader must yield exactly the records whose frames are complete - unmodified, in order, none skipped - and "
+        "must not raise at a frame boundary.",
+        "Fail-stop fault model; streams above 3 kB are cut on a 300-point grid plus frame boundaries +-1 instead of "
+        "every offset; bz2/lz4/zstd truncation not enumerated.",
+        "DESIGN.md 4/C04",
+    ),
 }
 
 NOT_APPLICABLE = {}
